@@ -3,6 +3,8 @@ NOTES = ("All checks are model-based: explicit TLA+ specifications in spec/ chec
          "implementation by replaying TLC behaviours into the real code and validating recorded executions "
          "against trace specifications (see DESIGN.md). Exit 2 = machinery failure.")
 ENGINES = [
+    {"name": "href", "path": "harness/hrefcheck.py", "serves_properties": ["C16"],
+     "kind_free_text": "Href.tla names enumerated by TLC, hrefs dereferenced verbatim on the real server, judged by HrefTrace.tla"},
     {"name": "pathmap", "path": "harness/pathcheck.py", "serves_properties": ["C13"],
      "kind_free_text": "PathMap.tla targets enumerated by TLC, executed under the audit-hook recorder, judged by PathMapTrace.tla"},
     {"name": "cardquery", "path": "harness/cardcheck.py", "serves_properties": ["C12"],
@@ -70,6 +72,10 @@ def table(dav):
         "PathMap.tla defines the normal form of a request target (dot-segment removal clamped at the root) and the safety / as-normalised predicates; TLC enumerates every target up to 2 (quick) or 3 (thorough) segments over {existing collection, existing member, fresh name, '.', '..', empty, absolute path of a directory outside the root} x 1-4 leading slashes x 4 encodings with its normal form. Each target is sent with 9 methods (incl. as an href inside a multiget body) to a real aiohttp server on loopback and to the WSGI callable, with every file-system event of the process recorded through an audit hook, the surroundings of the data root hashed before/after, and the effect compared with the same method on the normalised path in a twin world; TLC judges every observation (PathMapTrace.tla). Exhaustive over the stated finite grammar; claimed as exploration.",
         "TLA+ path-normalisation spec enumerated by TLC; audit-hook recording of all file-system accesses of real requests; TLC judges each observation",
         "File-system accesses without a Python audit event would only show in the before/after snapshot; symlinks out of scope; reads of the user's git configuration by dulwich are library configuration, not user data; harness/compat.py."))
+    checks.append(other("C16", "href", "exploration",
+        "Href.tla defines emission (percent-encode every octet that is not unreserved) and dereferencing of member names over 11 character classes (letter, space, %, #, ?, ;, +, non-ASCII, digits so that escape-like names such as %20 occur); TLC checks the round-trip and injectivity theorems and enumerates the names (all up to length 3 in the thorough tier). For every name, under 3 route prefixes and both front ends, the member is created and every emitting context is exercised (PROPFIND Depth 1 and 0, sync-collection, calendar-query, multiget, POST Location, PROPPATCH / 404 response hrefs); each href is requested verbatim with a raw client and must return the resource it was emitted for; listings must contain every member exactly once and collection hrefs end in '/'. TLC judges the recorded round trips (HrefTrace.tla). Listing exactness along arbitrary write histories is additionally judged in every step of the Dav cluster (C01). Exhaustive over the stated name grammar; claimed as exploration.",
+        "TLA+ href round-trip spec enumerated by TLC; every emitted href dereferenced verbatim against the real server; TLC judges the records",
+        "Identity of a resource = the UID in the body GET returns; names are single path segments without '/' and without dots other than the extension; harness/compat.py."))
     na = [{"property_id": p, "reason": "check not built yet in this round; planned in DESIGN.md section 5"}
-          for p in ALL if p not in claimed + ["C04", "C05", "C10", "C11", "C12", "C13"]]
+          for p in ALL if p not in claimed + ["C04", "C05", "C10", "C11", "C12", "C13", "C16"]]
     return checks, na
